@@ -44,13 +44,17 @@ RULE = ("a case is one history: optional generation padding (empty commits so th
         "multisegment=True} x {commit default/merge=False/optimize, cancel} x {compound, loose} x {tiny limitmb}, 3-4 (thorough "
         "3-7) added documents + sometimes one delete/update of an earlier document. The PARENT process is tapped; the forked "
         "sub-writer processes run whoosh's real buffered files (a fork hook switches the inherited tap off in the child). "
-        "Crash points of an mp transaction = every storage event of the parent (while sub-writers live no read-only "
-        "equivalence is assumed) + extra sample points between the fed documents, before commit()/cancel() and inside "
+        "Crash points of an mp transaction = every storage event of the parent (quick tier: every third plain write() "
+        "boundary, every other kind of event; while sub-writers live no read-only equivalence is assumed) + extra sample points between the fed documents, before commit()/cancel() and inside "
         "SubWriterTask.join() (the parent waits there without storage events). At a crash point all live sub-writers are "
         "SIGSTOPped (seen stopped in /proc) while the directory is copied: the snapshot is the directory at one instant, with "
         "whatever the children had handed to the OS - the state a crash of the whole process group leaves. Verdicts are the "
         "same as for single-process transactions (old or new, searchable, writable, no orphan segment file - which includes "
-        "the sub-writers' segment files - after the next commit).")
+        "the sub-writers' segment files - after the next commit). "
+        "MULTI-PROCESS RECOVERY WRITER: at up to three crash points of EVERY monitored transaction (just before the TOC "
+        "rename, just before the lock release, after the transaction returned) a second copy of the snapshot is recovered by "
+        "ix.writer(procs=2, batchsize=1) (MpWriter: two documents, commit(merge=False)) instead of the plain writer: the "
+        "commit must go through, the index must re-open, and no orphaned segment file may be left.")
 ASSUMPTIONS = [
     "process-crash model only (the statement's): the OS keeps every completed write()/rename()/unlink(); no power loss, "
     "no reordering below the OS, no torn sectors (whoosh never fsyncs)",
@@ -74,17 +78,21 @@ ASSUMPTIONS = [
     "and which child states are met depends on real timing (these cases do not replay exactly; sub-writer segment names are "
     "re-seeded by CPython after fork). 'mid' prefix variants of the parent's open files are taken at a quarter of the mp "
     "crash points (they are enumerated by the single-process histories). No real-SIGKILL cross-validation for mp transactions",
-    "an MpWriter transaction that exceeds 60 s has its sub-writers killed by the harness and is dropped without a verdict "
+    "an MpWriter transaction whose parent makes no progress (no storage event, no finished sample point) for 60 s has its "
+    "sub-writers killed by the harness and is dropped without a verdict "
     "(mp.watchdog_fired; the floors on mp.tx.completed keep such a run from counting as 'held'); sub-writer processes still "
-    "alive after cancel() (MpWriter.cancel only flags the parent's copy of the task objects) are an observation "
-    "(mp.obs.subwriters_alive_after_cancel) and are killed by the harness",
+    "alive after cancel() would be an observation (mp.obs.subwriters_alive_after_cancel; the pinned tree left them running, "
+    "fixed under C04) and are killed by the harness",
     "files left in MAIN.tmp/ (job files, run files of the sub-writers) are not segment files: their survival is recorded "
     "(leftover.tmpdir), not judged - the statement promises the removal of orphaned SEGMENT files",
+    "the multi-process recovery writer is judged on 'commits, re-opens, leaves no orphan segment file' only (its resulting "
+    "state is not compared with the clean states: the plain recovery writer does that at every crash point); a recovery that "
+    "makes no progress for 60 s is dropped (mprecovery.watchdog_fired)",
     "the neighbour index (second index name in the same directory) is only read, never written, during the history; "
     "crash enumeration of the NEIGHBOUR's own commits with MAIN as the bystander is not done",
 ]
 SHARDS = {"quick": 4, "thorough": 16}
-BUDGET_S = {"quick": 65, "thorough": 600}
+BUDGET_S = {"quick": 72, "thorough": 600}
 FLOORS = {
     "quick": {"crash_points": 2500, "evaluations.snapshot": 5000, "tx.committed": 5, "tx.both_outcomes": 5,
               "flip.at_toc_rename": 5, "reach.merge_small": 1, "reach.optimize_merge": 1, "reach.clear": 1,
@@ -94,10 +102,11 @@ FLOORS = {
               # multi-process transactions (8 per quick run whatever the seed: 4 shards x 2)
               "mp.tx.completed": 6, "mp.tx.merged.commit": 2, "mp.tx.multisegment.commit": 2, "mp.tx.merged.cancel": 1,
               "mp.tx.multisegment.cancel": 1, "mp.tx.merged.commit.loose": 1, "mp.tx.merged.commit.compound": 1,
-              "mp.tx.both_outcomes": 3, "mp.crash_points": 800, "mp.crash_points.during_finish": 700,
-              "mp.crash_points.during_feed": 50, "mp.crash_points.children_alive": 150,
-              "mp.crash_points.with_subwriter_segment_files": 400, "mp.outcome.old": 900, "mp.outcome.new": 15,
-              "mp.samples.feed": 8, "neighbour.tx_monitored": 1, "tx.front.ixmethod": 1},
+              "mp.tx.both_outcomes": 3, "mp.crash_points": 400, "mp.crash_points.during_finish": 350,
+              "mp.crash_points.during_feed": 50, "mp.crash_points.children_alive": 25,
+              "mp.crash_points.with_subwriter_segment_files": 200, "mp.outcome.old": 450, "mp.outcome.new": 12,
+              "mp.samples.feed": 8, "neighbour.tx_monitored": 1, "tx.front.ixmethod": 1,
+              "mprecovery.completed": 15, "mprecovery.evals_with_orphans_before": 4},
     # calibrated on runs made while the shared machine had a load average of 50-70 on 16 cores (36-59 histories
     # finished inside the time cap); an idle machine finishes about twice as many
     "thorough": {"crash_points": 15000, "evaluations.snapshot": 30000, "tx.committed": 30, "tx.both_outcomes": 30,
@@ -108,7 +117,8 @@ FLOORS = {
                  "mp.tx.completed": 16, "mp.tx.merged.commit": 5, "mp.tx.multisegment.commit": 5, "mp.tx.both_outcomes": 8,
                  "mp.crash_points": 3000, "mp.crash_points.children_alive": 500,
                  "mp.crash_points.with_subwriter_segment_files": 1200, "mp.outcome.old": 3000, "mp.outcome.new": 50,
-                 "neighbour.tx_monitored": 4, "tx.front.ixmethod": 3},
+                 "neighbour.tx_monitored": 4, "tx.front.ixmethod": 3,
+                 "mprecovery.completed": 60, "mprecovery.evals_with_orphans_before": 15},
 }
 
 VOCAB = ["alfa", "bravo", "charlie", "delta", "echo", "foxtrot", "golf", "hotel"]
@@ -716,6 +726,7 @@ class TxRun(object):
         self.parent_ids = set()     # segment ids the PARENT process created / touched (from its own tap events)
         self.pre_ids = set(m.group(1) for m in (SEGFILE.match(f) for f in os.listdir(d)) if m) if os.path.isdir(d) else set()
         self.nsamples = {}
+        self.mprec_left = 3
 
     # -- sub-writer processes (MpWriter) --------------------------------------
     def child_pids(self):
@@ -742,11 +753,17 @@ class TxRun(object):
         self.nsamples[kind] = self.nsamples.get(kind, 0) + 1
         if kind == "fed":
             self.mp["phase"] = "finish"
+        self.mp["in_callback"] = True
         try:
-            with self.tap.muted():
-                self.ctx.count("mp.samples." + kind)
-                self.crash_point(self.tap.n + 1, "sample-" + kind, "")
-                self.dirty = True
+            try:
+                with self.tap.muted():
+                    self.ctx.count("mp.samples." + kind)
+                    self.crash_point(self.tap.n + 1, "sample-" + kind, "")
+                    self.dirty = True
+            finally:
+                import time
+                self.mp["last_progress"] = time.time()
+                self.mp["in_callback"] = False
         except Exception as e:  # noqa - a bug of the harness must never look like a whoosh failure
             from vf.core import HarnessError
             if isinstance(e, HarnessError):
@@ -755,8 +772,17 @@ class TxRun(object):
 
     # -- snapshots -------------------------------------------------------
     def on_event(self, n, kind, name, detail):
+        mp = self.mp
+        if mp is not None:
+            mp["in_callback"] = True
         try:
-            self._on_event(n, kind, name, detail)
+            try:
+                self._on_event(n, kind, name, detail)
+            finally:
+                if mp is not None:
+                    import time
+                    mp["last_progress"] = time.time()
+                    mp["in_callback"] = False
         except Exception as e:  # noqa - a bug of the harness must never look like a whoosh failure
             from vf.core import HarnessError
             if isinstance(e, HarnessError):
@@ -774,6 +800,12 @@ class TxRun(object):
                 self.parent_ids.add(m.group(1))
             if self.child_pids():
                 self.dirty = True       # the sub-writers may have changed the directory since the last snapshot
+            if kind == "write" and ctx.quick and n % 3:
+                # quick tier: two of three plain write() boundaries of the parent's own files are not snapshotted (every
+                # create / close / rename / remove / lock / ... boundary is; the thorough tier takes every event)
+                ctx.count("mp.write_events_not_snapshotted")
+                self.dirty = True
+                return
         if self.dirty:
             self.crash_point(n, kind, name)
             self.dirty = False
@@ -840,7 +872,7 @@ class TxRun(object):
                     ctx.count("variant.flushed.shared")
                 if any(s.total - s.flushed >= 2 for s in sts):
                     variants.append("mid")
-            if self.mp is not None and "mid" in variants and self.mprng.random() >= 0.25:
+            if self.mp is not None and "mid" in variants and (ctx.quick or self.mprng.random() >= 0.25):
                 variants.remove("mid")      # (the parent's unflushed prefixes are enumerated by the single-process histories)
             snaps = []
             with self.frozen() as fz:
@@ -852,8 +884,19 @@ class TxRun(object):
                     if variant == "full" and kind != "end" and self.kill_prob and self.rng.random() < self.kill_prob:
                         self.keep_kill_sample(n, kind, name, snap, sts)
                     snaps.append((variant, snap, info))
+                # at up to three crash points per transaction (just before the TOC rename, just before the lock release, after
+                # the transaction returned) a second copy is recovered by a MULTI-PROCESS writer (see mp_recovery)
+                mprec = None
+                if self.mprec_left > 0 and (kind in ("end", "lock-release") or (kind == "rename" and fileclass(name) == "toc")):
+                    self.mprec_left -= 1
+                    mprec = os.path.join(self.root, "snap-mprec")
+                    if os.path.exists(mprec):
+                        shutil.rmtree(mprec)
+                    tap.materialize(self.d, mprec, "full", self.rng)
             if self.mp is not None:
                 self.mp_observe(n, kind, fz, snaps[0][1])
+            if mprec is not None:
+                self.mp_recovery(n, kind, name, mprec)
             for variant, snap, info in snaps:
                 ctx.count("evaluations.snapshot")
                 ctx.count("variant.%s.evals" % variant)
@@ -866,6 +909,77 @@ class TxRun(object):
                     self.eval_failures = getattr(self, "eval_failures", 0) + 1
                 self.pending.append((n, kind, name, variant, info, self.slim(obs)))
                 shutil.rmtree(snap, ignore_errors=True)
+
+    def mp_recovery(self, n, kind, name, snap):
+        """The statement's 'later writer' may be any writer: here the crash state is recovered by ix.writer(procs=2) (MpWriter)
+        which adds two documents and commits; afterwards no orphaned segment file may be left and the index must open."""
+        from whoosh import index
+        ctx = self.ctx
+        install_fork_hook()
+        ctx.count("mprecovery.evals")
+        w = dict(self.wb)
+        w.update({"crash_before_event": n, "event_kind": kind, "event_file": norm_name(name),
+                  "recovery_writer": "ix.writer(procs=2, batchsize=1): two documents added, commit()"})
+        where = "%s:%s" % (kind, fileclass(name))
+        box = {}
+        import threading
+
+        def fire():
+            box["timed_out"] = True
+            reap_children(box.get("w"))
+        timer = threading.Timer(MP_TIMEOUT_S, fire)
+        timer.daemon = True
+        timer.start()
+        try:
+            try:
+                random.seed("c02-mprec:%d:%d" % (self.idx, self.j))
+                try:
+                    ix = index.open_dir(snap)
+                except index.EmptyIndexError:
+                    ctx.count("mprecovery.absent")
+                    return
+                before = set(m.group(1) for m in (SEGFILE.match(f) for f in os.listdir(snap)) if m)
+                live0 = set(seg.segment_id() for seg in ix._segments())
+                mw = box["w"] = ix.writer(procs=2, batchsize=1, timeout=0)
+                doc = {"id": "zy1", "t": "alfa yankee"}
+                if "n" in mw.schema.names():
+                    doc["n"] = 98
+                mw.add_document(**doc)
+                mw.add_document(**dict(doc, id="zy2"))
+                mw.commit(merge=False)
+                ix2 = index.open_dir(snap)
+                live = set(seg.segment_id() for seg in ix2._segments())
+                with ix2.searcher() as sr:
+                    ndocs = sr.doc_count()
+            finally:
+                timer.cancel()
+                reap_children(box.get("w"))
+        except Exception as e:  # noqa
+            if box.get("timed_out"):
+                ctx.count("mprecovery.watchdog_fired")
+                return
+            from vf.core import HarnessError
+            if isinstance(e, HarnessError) or _site(e) == "harness":
+                raise
+            if getattr(self, "mprec_failed", False):
+                return
+            self.mprec_failed = True
+            ctx.fail("crash-state.writable", "mp-recovery-writer:exc:%s@%s:before:%s" % (type(e).__name__, _site(e), where),
+                     w, _tb(e))
+            return
+        finally:
+            pass
+        files = sorted(os.listdir(snap))
+        orphans = [f for f in files if SEGFILE.match(f) and SEGFILE.match(f).group(1) not in live]
+        if before - live0:
+            ctx.count("mprecovery.evals_with_orphans_before")
+        ctx.count("mprecovery.completed")
+        shutil.rmtree(snap, ignore_errors=True)
+        if orphans and not getattr(self, "mprec_failed", False):
+            self.mprec_failed = True
+            w["orphans_after_multiprocess_commit"] = orphans
+            ctx.fail("crash-state.orphans", "orphan-segment-file-survives-next-commit:mp-recovery-writer:before:%s" % where, w,
+                     "files %r belong to no segment of the current TOC after the MpWriter's commit" % (orphans,))
 
     def mp_observe(self, n, kind, fz, snap):
         """Reach counters of a multi-process crash point: what of the sub-writers' work is inside the snapshot."""
@@ -1161,7 +1275,7 @@ def run_monitored_tx(ctx, tap, root, d, idx, j, tx, rng, wb, model, new_model, f
             raise
         if is_mp and rt.get("timed_out"):
             ctx.count("mp.watchdog_fired")
-            ctx.note("history %d tx %d: MpWriter transaction exceeded %d s; sub-writers killed by the harness (%r)" % (
+            ctx.note("history %d tx %d: MpWriter transaction: no progress for %d s; sub-writers killed by the harness (%r)" % (
                 idx, j, MP_TIMEOUT_S, e))
             return False, info
         site = _site(e)
@@ -1174,7 +1288,7 @@ def run_monitored_tx(ctx, tap, root, d, idx, j, tx, rng, wb, model, new_model, f
     if is_mp:
         if rt.get("timed_out"):
             ctx.count("mp.watchdog_fired")
-            ctx.note("history %d tx %d: MpWriter transaction exceeded %d s; sub-writers killed by the harness" % (
+            ctx.note("history %d tx %d: MpWriter transaction: no progress for %d s; sub-writers killed by the harness" % (
                 idx, j, MP_TIMEOUT_S))
             return False, info
         ctx.count("mp.tx.completed")
@@ -1390,7 +1504,8 @@ class _MpGuard(object):
         run, rt = self.run, self.rt
 
         def join(task, timeout=None):
-            if timeout is None and not rt.get("timed_out"):
+            mine = task in list(getattr(rt.get("mpw"), "tasks", ()) or ())      # (not the sub-writers of a recovery writer)
+            if timeout is None and mine and not rt.get("timed_out") and not rt.get("in_callback"):
                 while run.nsamples.get("join", 0) < 8:
                     base_join(task, 0.003)
                     if task.exitcode is not None:
@@ -1398,13 +1513,27 @@ class _MpGuard(object):
                     run.sample("join")
             return base_join(task, timeout)
         self.cls.join = join
-        self.timer = threading.Timer(self.timeout_s, self._fire)
+        # the guard measures time WITHOUT PROGRESS of the parent (no storage event, no sample point finished for timeout_s
+        # seconds): the harness's own snapshot evaluations inside the callbacks are progress, a parent blocked in join() /
+        # Queue.get() on a dead or hung sub-writer is not
+        import time
+        rt["last_progress"] = time.time()
+        self.stop = threading.Event()
+
+        def watch():
+            while not self.stop.wait(1.0):
+                if rt.get("in_callback"):
+                    continue
+                if time.time() - rt["last_progress"] > self.timeout_s:
+                    self._fire()
+                    return
+        self.timer = threading.Thread(target=watch)
         self.timer.daemon = True
         self.timer.start()
         return self
 
     def __exit__(self, *a):
-        self.timer.cancel()
+        self.stop.set()
         if self.orig is None:
             try:
                 del self.cls.join
@@ -1603,9 +1732,13 @@ def run(ctx):
         ctx.reseed_global(idx)
         k = idx // ctx.nshards
         shard = idx % ctx.nshards
+        import time
+        t0 = time.time()
         if k in mp_at:
             kk = mp_at.index(k) * ctx.nshards + shard
             run_history(ctx, idx, gen_mp_history(ctx.rng(idx, "mp"), kk, ctx.tier))
+            ctx.count("wall_ms.mp_histories", int((time.time() - t0) * 1000))      # (evidence only: where the budget went)
         else:
             hk = k - sum(1 for m in mp_at if m < k)
             run_history(ctx, hk * ctx.nshards + shard)
+            ctx.count("wall_ms.single_process_histories", int((time.time() - t0) * 1000))
